@@ -364,6 +364,35 @@ class C17Executor(Executor):
     def e_ListComp(self, n, st):
         return self._str_map_comp(n, st) or self._opaque_comp(n, st) or super().e_ListComp(n, st)
 
+    def symbolic_for(self, s, st, it):
+        """round 7: `for piece in <open list of str>: acc.append(piece.<total str method>())` with `acc` an empty local list is the
+        comprehension `[piece.m() for piece in ...]` written as a loop (same value, same order): `acc` becomes the mapped list."""
+        o = self._ol(st, it)
+        if o is not None and o.data["ekind"] == "str" and not o.data["tail"] and not s.orelse and len(s.body) == 1 and isinstance(s.target, ast.Name):
+            b = s.body[0]
+            c_ = b.value if isinstance(b, ast.Expr) and isinstance(b.value, ast.Call) else None
+            if c_ is not None and isinstance(c_.func, ast.Attribute) and c_.func.attr == "append" and isinstance(c_.func.value, ast.Name) \
+                    and len(c_.args) == 1 and not c_.keywords:
+                e = c_.args[0]
+                if isinstance(e, ast.Call) and isinstance(e.func, ast.Attribute) and isinstance(e.func.value, ast.Name) and e.func.value.id == s.target.id \
+                        and not e.args and not e.keywords and e.func.attr in ("strip", "lstrip", "rstrip", "lower", "upper", "casefold"):
+                    acc = st.lookup(c_.func.value.id)
+                    ao = st.heap.get(acc.ref) if isinstance(acc, VRef) else None
+                    if ao is not None and ao.kind == "list" and ao.data == [] and ao.fresh:
+                        v, blen = mk_olist(self, st, fresh_name("mapped"), "str")
+                        newo = st.heap[v.ref]
+                        newo.fresh = True
+                        if o.data.get("of") is not None:
+                            newo.data["of"] = STR_MAP(z3.StringVal(e.func.attr), o.data["of"])
+                        st.assume(blen == o.data["blen"])
+                        st.heap[acc.ref] = newo
+                        from pyvc.symex import Outcome
+                        outs = []
+                        for s3 in self.assign(s.target, VStr(z3.String(fresh_name("piece"))), st):
+                            outs.append(Outcome("fall", s3))
+                        return outs
+        return super().symbolic_for(s, st, it)
+
     def _str_map_comp(self, n, st):
         """round 7: `[x.strip() for x in <list of str of symbolic length>]` -- a total str method on every element: again a list of
         str; when the source list is a known function of a text (`text.split(sep)`), the result is one too (`of`)."""
